@@ -46,7 +46,9 @@ class A(Adapter):
     def configs(self):
         base = [cfg("g10a10rw", True, g=10, a=10, gen="rw", tl=None), cfg("g5a2uni", True, g=5, a=2, gen="uni", tl=None),
                 cfg("g6a3rw", g=6, a=3, gen="rw", tl=None), cfg("g5a1rw", True, g=5, a=1, gen="rw", tl=None),
-                cfg("g8a4uni", g=8, a=4, gen="uni", tl=None)]
+                cfg("g8a4uni", g=8, a=4, gen="uni", tl=None),
+                # user-chosen reward coefficients, one of them zero (falsy): DenseRewardFn(connected_reward, timestep_reward)
+                cfg("g5a3rwr0", True, g=5, a=3, gen="rw", tl=None, cr=0.5, tr=0.0)]
         return cross_tl(base, [1, 2, 3, 7])
 
     def build(self, c):
@@ -54,6 +56,9 @@ class A(Adapter):
         from jumanji.environments.routing.connector import generator as G
         g = (G.RandomWalkGenerator if c["gen"] == "rw" else G.UniformRandomGenerator)(grid_size=c["g"], num_agents=c["a"])
         kw = {} if c.get("tl") is None else {"time_limit": c["tl"]}
+        if "cr" in c:
+            from jumanji.environments.routing.connector.reward import DenseRewardFn
+            kw["reward_fn"] = DenseRewardFn(connected_reward=c["cr"], timestep_reward=c["tr"])
         return Connector(generator=g, **kw)
 
     def time_limit(self, env, c):
@@ -145,7 +150,7 @@ class A(Adapter):
             may_end = bool((conn | blocked).all()) or int(ps.step_count) + 1 >= self.time_limit(env, cfg)
             if int(ts.step_type) == 2 and not may_end:
                 return ("invalid_move_ended_episode", f"LAST after an ignored move at step {int(ps.step_count) + 1} (not all agents connected/blocked)")
-            want = np.where(conn, 0.0, STEP_REWARD)
+            want = np.where(conn, 0.0, cfg.get("tr", STEP_REWARD))
             if not np.allclose(np.asarray(ts.reward, dtype=np.float64), want, rtol=1e-5, atol=1e-6):
                 return ("invalid_move_reward", f"reward {np.asarray(ts.reward).tolist()} expected {want.tolist()} (nobody connected)")
         if int(s.step_count) != int(ps.step_count) + 1:
@@ -262,7 +267,7 @@ class A(Adapter):
         conn0 = (p0 == t0).all(axis=1)
         conn1 = (p1 == t0).all(axis=1)
         r = np.asarray(ts.reward, dtype=np.float64)
-        base = np.where(conn0, 0.0, STEP_REWARD) + np.where(conn1 & ~conn0, CONNECT_REWARD, 0.0)
+        base = np.where(conn0, 0.0, cfg.get("tr", STEP_REWARD)) + np.where(conn1 & ~conn0, cfg.get("cr", CONNECT_REWARD), 0.0)
         # the docs do not say whether the agent that connects on this step still pays the -0.03 of "not connected yet":
         # both readings are accepted for that agent only
         alt = np.where(conn1 & ~conn0, CONNECT_REWARD, base)
